@@ -7,7 +7,8 @@ import json, os, sys, time, subprocess, hashlib, traceback, fnmatch
 
 VERIF = os.path.dirname(os.path.dirname(os.path.abspath(__file__)))
 REPO = os.environ.get('VERIF_REPO', '/repo')
-EVID_DIR = os.path.join(VERIF, 'evidence')
+# runs against a scratch copy (VERIF_REPO set, used for seeded-defect experiments) must not overwrite the evidence of /repo
+EVID_DIR = os.path.join(VERIF, 'evidence' if REPO == '/repo' else 'evidence_scratch')
 REPLAY_DIR = os.path.join(VERIF, 'replay')
 KNOWN = os.path.join(VERIF, 'known_findings.json')
 SCHEMA = '/root/.vp/EVIDENCE.schema.json'
